@@ -207,6 +207,11 @@ func allPerms(n int) [][]int {
 // replaceSigAlg rewrites both copies of the signature AlgorithmIdentifier of a certificate (tbsCertificate.signature
 // and the outer signatureAlgorithm) and, when sig is non-nil, the signature value.
 func replaceSigAlg(der []byte, alg []byte, sig []byte) ([]byte, error) {
+	return replaceSigAlgs(der, alg, alg, sig)
+}
+
+// replaceSigAlgs: the same with different identifiers inside (tbsCertificate.signature) and outside
+func replaceSigAlgs(der []byte, alg []byte, outer []byte, sig []byte) ([]byte, error) {
 	top, err := parseTLVs(der)
 	if err != nil || len(top) != 1 || top[0].tag != 0x30 {
 		return nil, errors.New("not a certificate")
@@ -238,7 +243,7 @@ func replaceSigAlg(der []byte, alg []byte, sig []byte) ([]byte, error) {
 	if sig != nil {
 		sigTLV = encTLV(0x03, append([]byte{0}, sig...))
 	}
-	return encTLV(0x30, concat(encTLV(0x30, concat(newTBS...)), alg, sigTLV)), nil
+	return encTLV(0x30, concat(encTLV(0x30, concat(newTBS...)), outer, sigTLV)), nil
 }
 
 // signature algorithm identifiers (DER) for substitution
@@ -255,4 +260,25 @@ var sigAlgs = []struct {
 	{"dsa-with-sha256", []byte{0x30, 0x0b, 0x06, 0x09, 0x60, 0x86, 0x48, 0x01, 0x65, 0x03, 0x04, 0x03, 0x02}},
 	{"ed25519", []byte{0x30, 0x05, 0x06, 0x03, 0x2b, 0x65, 0x70}},
 	{"unknown-algorithm", []byte{0x30, 0x0a, 0x06, 0x08, 0x2b, 0x06, 0x01, 0x04, 0x01, 0x83, 0xb2, 0x03}},
+}
+
+// longSigAlgs: identifiers whose encodings are much longer than the usual 11-15 octets: RSASSA-PSS with explicit SHA-256
+// parameters (67 octets) and an unknown algorithm with a 200 octet parameter
+func longSigAlgs() []struct {
+	name string
+	der  []byte
+} {
+	sha256 := encTLV(0x30, concat(encTLV(0x06, []byte{0x60, 0x86, 0x48, 0x01, 0x65, 0x03, 0x04, 0x02, 0x01}), []byte{0x05, 0x00}))
+	mgf := encTLV(0x30, concat(encTLV(0x06, []byte{0x2a, 0x86, 0x48, 0x86, 0xf7, 0x0d, 0x01, 0x01, 0x08}), sha256))
+	params := encTLV(0x30, concat(encTLV(0xa0, sha256), encTLV(0xa1, mgf), encTLV(0xa2, []byte{0x02, 0x01, 0x20})))
+	pss := encTLV(0x30, concat(encTLV(0x06, []byte{0x2a, 0x86, 0x48, 0x86, 0xf7, 0x0d, 0x01, 0x01, 0x0a}), params))
+	big := make([]byte, 200)
+	for i := range big {
+		big[i] = byte(i)
+	}
+	long := encTLV(0x30, concat(encTLV(0x06, []byte{0x2b, 0x06, 0x01, 0x04, 0x01, 0x83, 0xb2, 0x04}), encTLV(0x04, big)))
+	return []struct {
+		name string
+		der  []byte
+	}{{"rsassa-pss-sha256", pss}, {"unknown-long", long}}
 }
